@@ -646,7 +646,7 @@ func (g *gen) flags() string {
 var snippets = []string{`(?=a)`, `(?!a)`, `\1`, `\2`, `\10`, `\12`, `\8`, `\9`, `(?i)`, `(?P<n>a)`, `\a`, `\_`, `\x4`, `\u12`, `\c1`, `\c`, `[]`, `[^]`,
 	`a**`, `a{2}{3}`, `a{3,2}`, `a{1001}`, `a{1000}`, `{`, `}`, `]`, `a{,2}`, `^*`, `\b+`, `$?`, `(`, `)`, `[`, `\`, `[b-a]`, `[a-\d]`, `[\d-a]`, `x{2`, `\00`, `\01`,
 	`\777`, `\A`, `\z`, `\Q`, `\e`, `(?<n>a)`, `(?:`, `(?`, `*`, `+`, `?`, `|*`, `(*a)`, `a+?+`, `a*?`, `a??`, `[a-]`, `[-a]`, `[a-b-c]`, `\07`, `\3x`, `(a)\1`,
-	`[]|[a]`, `[^]a]`, `[]a]`, `\18`, `\81`, `(?=a)*`, `(?im)`, `(?i:a)`, `(?-i)`, `(?i-m:a)`, `\u00zz`, `\xg1`, `\cé`, `\y`, `\Z`, `{1}`, `a{1`, `a{1,`, `a{1,2`, `a{ 1}`, `a{01}`, `a{00,1}`, `a{1,02}`, `(a{500}){3}`, `(a{2}){501}`, `(?)`, `(?-)`, `a{0}`, `a{0,0}`, `\\u20ac`, `\400`, `\1234`, `\377a`, `(?-i)a`, `(?P<n>a)`, `(?i:a)`, `a/b`, `[/]/`}
+	`[]|[a]`, `[^]a]`, `[]a]`, `\18`, `\81`, `(?=a)*`, `(?im)`, `(?i:a)`, `(?-i)`, `(?i-m:a)`, `\u00zz`, `\xg1`, `\cé`, `\y`, `\Z`, `{1}`, `a{1`, `a{1,`, `a{1,2`, `a{ 1}`, `a{01}`, `a{00,1}`, `a{1,02}`, `(a{500}){3}`, `(a{2}){501}`, `(?)`, `(?-)`, `a{0}`, `a{0,0}`, `\\u20ac`, `\400`, `\1234`, `\377a`, `(?-i)a`, `(?P<n>a)`, `(?i:a)`, `a/b`, `[/]/`, `{0012`, `a{01`, `a{01,x}`, `a{00`, `{007}`, `a{01,}b{02`}
 
 func genC10(c *h.Ctx) {
 	g := &gen{r: c.Rng}
@@ -714,6 +714,11 @@ func genC10(c *h.Ctx) {
 				st[j] = g.step()
 			}
 			c.Add("xc "+g.pick([]string{"n", "n", "u", "f", "e", "c"})+" "+hexTok(g.pattern())+" "+hexTok(g.flags())+" "+hexTok(g.subject())+" "+strings.Join(st, ","), "xc:random")
+		}
+	}
+	for _, p := range []string{"{0012", "a{01", "a{01,x}", "{007}", "a{01}{02"} {
+		for _, s := range []string{"{0012", "a{01", "a{01,x}", "{12", "a", "{{{{{{{"} {
+			c.Add("x "+hexTok(p)+" - "+hexTok(s)+" e", "x:literal-brace")
 		}
 	}
 	// replacers that look at the regexp itself: lastIndex seen / written inside each call, exec on the same
